@@ -42,6 +42,9 @@ CHECKS = {
  "C12": ("model_checking", "exhaustive grid enumeration with a virtual clock on the real in-process broker (expiry x configured cap x waiting mode x waiting time x versions)",
   "The full grid of Message Expiry Interval {absent,2,5,100} x message_expiry {none,3s,10s} x {online, offline then reconnect, window full} x waiting time {0, L-1, L+1, L+30} x publisher/subscriber versions x QoS, each point on a fresh broker: delivered exactly once with the remaining lifetime, or not delivered and reported dropped as expired exactly once.",
   "W == L is not generated (boundary second). For intervals above the configured cap both E-W and M-W are accepted as forwarded value. Trusted: virtual clock, refmqtt.", "DESIGN.md 8/C12"),
+ "C13": ("model_checking", "exhaustive enumeration of outbound publish sequences x client limits, and of boundary probes over every validator-accepted configuration of a grid, on the real in-process broker",
+  "Outbound: client Maximum Packet Size {none,30,40} x Topic Alias Maximum {0,1,2} x subscription id x fresh/resumed session x every publish sequence of length 3 (quick) / 4 (thorough) over 3 topics with payload lengths sweeping the limit; every received packet is measured on the wire and resolved through a client-side alias table. Inbound: all 96 validator-accepted configurations of the grid; alias values {0,1,max-1,max,max+1,65535} with topic, empty topic and rebinding; r and r+1 outstanding QoS2 publishes; packets of exactly max_packet_size and +1; DISCONNECT reason codes; no panic; broker still serves afterwards.",
+  "Default schedule. Receive-maximum probes are skipped for r=65535 and size probes for max_packet_size 2^28-1 (too large to generate). Trusted: refmqtt (wire sizes are measured, not computed), vsched.", "DESIGN.md 8/C13"),
 }
 NA_DEFAULT = "check not built yet in this session (planned design in DESIGN.md section 8)"
 
